@@ -12,7 +12,7 @@
     c20-scan-back.diff and c20-serialise-first.diff applied (the version the check ties to
     /repo).  Status: the full statement is FALSE for both versions (torn tail); for the original
     code it is false in two more ways, which the two patches repair. *)
-From YV Require Import lib.Base model.YLog spec.LogSpec proof.LogProofs proof.LogSizes.
+From YV Require Import lib.Base model.YLog spec.LogSpec proof.LogProofs proof.LogSizes proof.LogPeers.
 
 (** the property at full strength *)
 Definition C20_audit_statement (c : cfg) : Prop :=
@@ -125,6 +125,52 @@ Example C20_shape_nonvacuous :
   map shape_of [Ev SendOpen true 52; Ev UpdateReceived true 147; Crash UpdateReceived true 147 10; Restart] =
   map shape_of [Ev SendOpen true 70000; Ev UpdateReceived true 4097; Crash UpdateReceived true 70000 69000; Restart].
 Proof. exact shape_example. Qed.
+
+(** PEER ADDRESSES.  The handler's dictionaries (current file, next sequence number) and the
+    directory are keyed by the LOWER-CASED address; callbacks arrive with the address as configured
+    (an IPv6 remote_addr may be spelled 2001:DB8::1).  In the model every access -- lookup AND the
+    store done by a rotation -- goes through [lower]; the check drives the code with IPv4, lower-,
+    upper- and mixed-case IPv6 spellings, spellings that change from event to event, and two
+    peers in one handler, crossed with rotations and restarts.
+
+    (d) the spelling an event (or a registration) arrives with is irrelevant *)
+Theorem C20_peer_spelling_irrelevant : forall c thr h a b cb ok sz k,
+  lower a = lower b ->
+  hstep c thr h (HEv a cb ok sz) = hstep c thr h (HEv b cb ok sz) /\
+  hstep c thr h (HCrash a cb ok sz k) = hstep c thr h (HCrash b cb ok sz k) /\
+  hregister c h a = hregister c h b.
+Proof. exact spelling_irrelevant. Qed.
+Print Assumptions C20_peer_spelling_irrelevant.
+
+(** (e) a handler that serves several peers: after ANY handler history the log of a registered
+    peer is exactly the single-peer run of its share of the history ([proj]: its own callbacks
+    under any spelling, every restart, a plain restart for a crash inside another peer's write) *)
+Theorem C20_peers_independent : forall c thr peers es k,
+  In k (map lower peers) ->
+  hget k (hrun c thr peers es) = Some (run c thr (flat_map (proj k) es)).
+Proof. exact peers_independent. Qed.
+Print Assumptions C20_peers_independent.
+
+(** (f) so the guarded audit theorem holds for every peer of the repaired code's handler *)
+Theorem C20_audit_every_peer : forall thr peers es a,
+  In a peers -> no_torn (flat_map (proj (lower a)) es) = true ->
+  exists s, hget (lower a) (hrun cfg_fixed thr peers es) = Some s /\ audit (observe s) = true.
+Proof. exact audit_every_peer. Qed.
+Print Assumptions C20_audit_every_peer.
+
+(** "2001:DB8::1", "2001:db8::1" and "10.0.0.2" registered: two logs; the two spellings share one
+    (three records, next number 4, across a rotation and a restart), the other peer has its own *)
+Example C20_peers_nonvacuous :
+  let A := [50; 48; 48; 49; 58; 68; 66; 56; 58; 58; 49] in
+  let a := [50; 48; 48; 49; 58; 100; 98; 56; 58; 58; 49] in
+  let b := [49; 48; 46; 48; 46; 48; 46; 50] in
+  let es := [HEv A UpdateReceived true 147; HEv b SendOpen true 52; HEv a UpdateReceived true 147;
+             HRestart; HEv A SendOpen true 52] in
+  length (hrun cfg_fixed 100 [A; a; b] es) = 2%nat /\
+  option_map alive (hget a (hrun cfg_fixed 100 [A; a; b] es)) = Some (Some 4) /\
+  option_map alive (hget b (hrun cfg_fixed 100 [A; a; b] es)) = Some (Some 2) /\
+  no_torn (flat_map (proj a) es) = true.
+Proof. exact peers_example. Qed.
 
 (** the audit's "+1 from line to line" implies that no sequence number is used twice *)
 Theorem C20_never_reused : forall ls, consecutive ls = true -> NoDup (seqs ls).
